@@ -77,6 +77,9 @@ pub enum Variant {
     /// NaN, NaN, an ordinary input, +inf right after warm-up (several non-finite inputs inside one window:
     /// recovery code that handles one poisoned slot is not exercised by a single NaN)
     NanBurst,
+    /// 3000 inputs of -inf and then 3000 of +inf right after warm-up (feeds that encode "no quote" that way):
+    /// sizes are measured at the end of the run of infinities, before a finite input can clean up
+    InfRun,
     /// bincode round trip right after warm-up; the run continues on the restored copy
     SerdeAfterWarmup,
     /// two inputs of magnitude ~1e154 (and volume 1e154) right after warm-up: products and sums overflow
@@ -143,6 +146,15 @@ fn long_job(cfg: &Cfg, regimes: &[Regime], seglen: usize, seed: u64, variant: Va
             Variant::OneNan => {
                 let nan = if cfg.kind.has_scalar() { Op::S(f64::NAN) } else { Op::B(Bar { o: 1.0, h: f64::NAN, l: f64::NAN, c: f64::NAN, v: 1.0 }) };
                 s.apply(&nan);
+            }
+            Variant::InfRun => {
+                let bad = |x: f64| if cfg.kind.has_scalar() { Op::S(x) } else { Op::B(Bar { o: x, h: x, l: x, c: x, v: 1.0 }) };
+                for _ in 0..3000 {
+                    s.apply(&bad(f64::NEG_INFINITY));
+                }
+                for _ in 0..3000 {
+                    s.apply(&bad(f64::INFINITY));
+                }
             }
             Variant::NanBurst => {
                 let bad = |x: f64| if cfg.kind.has_scalar() { Op::S(x) } else { Op::B(Bar { o: 1.0, h: x, l: x, c: x, v: 1.0 }) };
@@ -267,7 +279,7 @@ pub fn run(ctx: &Ctx) -> CheckResult {
                     jobs.push((cfg, pair.clone(), l, Variant::Plain));
                     // variants on every 4th pair: reset-and-refill sessions, a NaN, a serde round trip
                     if pi % 4 == 0 {
-                        for v in [Variant::ResetEvery(10), Variant::ResetEvery(2 * p + 1), Variant::ResetOnce, Variant::CloneFromBigger, Variant::ReplaceEvery(l / 8 + 1, true), Variant::ReplaceEvery(l / 8 + 3, false), Variant::OneNan, Variant::NanBurst, Variant::SerdeAfterWarmup, Variant::HugePair] {
+                        for v in [Variant::ResetEvery(10), Variant::ResetEvery(2 * p + 1), Variant::ResetOnce, Variant::CloneFromBigger, Variant::ReplaceEvery(l / 8 + 1, true), Variant::ReplaceEvery(l / 8 + 3, false), Variant::OneNan, Variant::NanBurst, Variant::InfRun, Variant::SerdeAfterWarmup, Variant::HugePair] {
                             jobs.push((cfg, pair.clone(), l, v));
                         }
                         if k.has_scalar() {
@@ -335,7 +347,7 @@ pub fn run(ctx: &Ctx) -> CheckResult {
     }
     res.exhaustive = false;
     res.rule = "case = (configuration, stream): (a) bincode length of the real object in every state of every short sequence; (b) long generated streams (every ordered pair of shape segments): serialized length at checkpoints and live heap bytes of the executing thread (counting global allocator) after warm-up vs after every segment; both must stay <= 256 + 64*sum(periods); non-trivial = state beyond the first window / long run".into();
-    res.bounds = format!("(a) all 22 indicators, periods 1..4, all sequences over 3 symbols + reset up to depth min(3n+3, {}); (b) periods {} x all 64 ordered pairs of {{up, down, alternating extremes, flat, LCG walk, stair, zero-mix (0.0 / -0.0 / small signed values), plateau sweep (alternating extremes held for 80, 79, ... 1 inputs, then a zig-zag)}} x segment length {} (O(n)-per-step subjects shortened and thinned); every 4th pair additionally with reset() every 10 / 2n+1 inputs, with a single reset() after warm-up, replaced by its clone / by a restored copy eight times per segment, copied with clone_from into an instance of 8x larger periods, with one NaN input after warm-up, with NaN, NaN, an ordinary input and +inf after warm-up, with two inputs of magnitude 1e154 (overflowing products), continued on a bincode-restored copy, and (indicators with a scalar path) with bars and scalars fed to the same instance in turn; Default::default() instances of all 22 indicators against the bound of the parameters they report", if th { 13 } else { 10 }, if th { "1..16, 31..33, 63..65, 127..129, 255..257, 511, 512" } else { "1, 2, 5, 14, 64, 257" }, if th { 500_000 } else { 20_000 });
+    res.bounds = format!("(a) all 22 indicators, periods 1..4, all sequences over 3 symbols + reset up to depth min(3n+3, {}); (b) periods {} x all 64 ordered pairs of {{up, down, alternating extremes, flat, LCG walk, stair, zero-mix (0.0 / -0.0 / small signed values), plateau sweep (alternating extremes held for 80, 79, ... 1 inputs, then a zig-zag)}} x segment length {} (O(n)-per-step subjects shortened and thinned); every 4th pair additionally with reset() every 10 / 2n+1 inputs, with a single reset() after warm-up, replaced by its clone / by a restored copy eight times per segment, copied with clone_from into an instance of 8x larger periods, with one NaN input after warm-up, with NaN, NaN, an ordinary input and +inf after warm-up, with 3000 inputs of -inf and 3000 of +inf after warm-up, with two inputs of magnitude 1e154 (overflowing products), continued on a bincode-restored copy, and (indicators with a scalar path) with bars and scalars fed to the same instance in turn; Default::default() instances of all 22 indicators against the bound of the parameters they report", if th { 13 } else { 10 }, if th { "1..16, 31..33, 63..65, 127..129, 255..257, 511, 512" } else { "1, 2, 5, 14, 64, 257" }, if th { 500_000 } else { 20_000 });
     res.assumptions = vec!["systematically enumerated family of stream shapes, not all streams".into(), "live heap is measured per thread: memory handed to another thread would not be seen (the crate spawns no threads)".into()];
     res
 }
